@@ -1009,7 +1009,7 @@ def load_corpus():
 
 def main(tier, seed, replay=None):
     t0 = time.time()
-    proof = Proof(PROP)
+    proof = Proof(PROP, tier=tier)
     exe, _ = build_model(PROP, "ExtractC12.v", os.path.join(ROOT, "ocaml/c12"), ["theories/Persist.v"])
     rng = random.Random(seed)
     known, fixed = known_findings(PROP)
